@@ -151,6 +151,12 @@ pub fn verif_dir() -> PathBuf {
     std::env::var("VERIF_DIR").map(PathBuf::from).unwrap_or_else(|_| PathBuf::from("/verif"))
 }
 
+/// Where evidence/ and replays/ are written (PV_OUT_DIR overrides; used for scratch runs against
+/// mutated copies so that the real evidence files are not clobbered).
+pub fn out_dir() -> PathBuf {
+    std::env::var("PV_OUT_DIR").map(PathBuf::from).unwrap_or_else(|_| verif_dir())
+}
+
 pub fn repo_dir() -> PathBuf {
     std::env::var("PALLAS_REPO").map(PathBuf::from).unwrap_or_else(|_| PathBuf::from("/repo"))
 }
@@ -297,7 +303,7 @@ impl Session {
     fn report_violation<V: Serialize + Debug>(&self, sub: &str, v: &V, fail: &Fail, origin: &str) {
         let case = serde_json::to_value(v).unwrap_or(Value::String(format!("{:?}", v)));
         let h = fnv64(format!("{}|{}|{}", sub, fail.sig, case).as_bytes());
-        let dir = self.verif.join("replays");
+        let dir = out_dir().join("replays");
         let _ = std::fs::create_dir_all(&dir);
         let path = dir.join(format!("{}-{:016x}.json", self.id, h));
         let doc = json!({
@@ -527,8 +533,9 @@ impl Session {
     }
 
     fn progress(&self, sub: &str) {
-        let p = self.verif.join("evidence").join(format!(".progress-{}", self.id));
-        let _ = std::fs::write(p, sub);
+        let d = out_dir().join("evidence");
+        let _ = std::fs::create_dir_all(&d);
+        let _ = std::fs::write(d.join(format!(".progress-{}", self.id)), sub);
         if std::env::var("PV_VERBOSE").is_ok() {
             eprintln!("[{}] sub-check {} …", self.id, sub);
         }
@@ -578,14 +585,14 @@ impl Session {
             "violations": st.violations.len(),
         });
         if self.replay.is_none() {
-            let dir = self.verif.join("evidence");
+            let dir = out_dir().join("evidence");
             let _ = std::fs::create_dir_all(&dir);
             let path = dir.join(format!("{}.json", self.id));
             let tmp = dir.join(format!(".{}.json.tmp", self.id));
             std::fs::write(&tmp, serde_json::to_string_pretty(&ev).unwrap()).expect("write evidence");
             std::fs::rename(&tmp, &path).expect("rename evidence");
         }
-        let _ = std::fs::remove_file(self.verif.join("evidence").join(format!(".progress-{}", self.id)));
+        let _ = std::fs::remove_file(out_dir().join("evidence").join(format!(".progress-{}", self.id)));
         eprintln!(
             "[{}] tier={:?} seed={} evaluations={} distinct_nontrivial={} discarded={} known_hits={} violations={} wall={:.1}s",
             self.id, self.tier, self.seed, st.evaluations, st.nontrivial.len(), st.discarded,
@@ -609,8 +616,16 @@ impl Session {
 }
 
 fn load_known(verif: &Path, id: &str) -> Vec<Known> {
-    let p = verif.join("known_findings.json");
-    let Ok(txt) = std::fs::read_to_string(&p) else { return vec![] };
+    let mut out = load_known_file(&verif.join("known_findings.json"), id);
+    // development aid only: an extra list (never set by the registered commands)
+    if let Ok(extra) = std::env::var("PV_KNOWN_EXTRA") {
+        out.extend(load_known_file(Path::new(&extra), id));
+    }
+    out
+}
+
+fn load_known_file(p: &Path, id: &str) -> Vec<Known> {
+    let Ok(txt) = std::fs::read_to_string(p) else { return vec![] };
     let Ok(v) = serde_json::from_str::<Value>(&txt) else {
         eprintln!("known_findings.json does not parse; ignoring");
         return vec![];
@@ -693,6 +708,18 @@ pub fn main(defs: &[CheckDef]) {
         std::process::exit(supervise(&args, &id, tier, seed, &verif));
     }
     panics::install();
+    let mut seed = seed;
+    let mut tier = tier;
+    let mut replay = replay;
+    if let Some(p) = &replay {
+        let txt = std::fs::read_to_string(p).expect("read replay file");
+        let doc: Value = serde_json::from_str(&txt).expect("parse replay file");
+        if doc.get("signature").and_then(|s| s.as_str()).map(|s| s.starts_with("process-death")).unwrap_or(false) {
+            seed = doc.get("seed").and_then(|s| s.as_u64()).unwrap_or(seed);
+            tier = if doc.get("tier").and_then(|s| s.as_str()) == Some("Thorough") { Tier::Thorough } else { Tier::Quick };
+            replay = None;
+        }
+    }
     let replay = replay.map(|p| {
         let txt = std::fs::read_to_string(&p).expect("read replay file");
         let doc: Value = serde_json::from_str(&txt).expect("parse replay file");
@@ -743,12 +770,12 @@ fn supervise(args: &[String], id: &str, tier: Tier, seed: u64, verif: &Path) -> 
                     return code;
                 }
                 let sig = st.signal().unwrap_or(0);
-                let sub = std::fs::read_to_string(verif.join("evidence").join(format!(".progress-{id}"))).unwrap_or_default();
+                let sub = std::fs::read_to_string(out_dir().join("evidence").join(format!(".progress-{id}"))).unwrap_or_default();
                 if sig == libc::SIGKILL {
                     eprintln!("[{id}] INCONCLUSIVE: child killed (SIGKILL, probably out of memory) in sub-check {sub}");
                     return 2;
                 }
-                let dir = verif.join("replays");
+                let dir = out_dir().join("replays");
                 let _ = std::fs::create_dir_all(&dir);
                 let path = dir.join(format!("{id}-death-{seed}.json"));
                 let doc = json!({"property": id, "sub": sub, "signature": format!("process-death:signal {sig}"),
